@@ -307,6 +307,8 @@ def monitor_c06(ops, outs):
         if not cfg.valid():
             continue
         out = Out(o)
+        if o.startswith("env-error"):
+            continue  # the harness could not get a local port: not an observation of Buffer (the diff still reports it)
         if not out.ok:
             bad.append("malformed: no well-formed result for %r: %r" % (" ".join(ops[0].split()[:3]), o[:80]))
             continue
@@ -341,6 +343,8 @@ def monitor_c07(ops, outs):
         if kind == "cfg" or not cfg.valid():
             continue
         out = Out(o)
+        if o.startswith("env-error"):
+            continue  # the harness could not get a local port: not an observation of Buffer (the diff still reports it)
         if not out.ok:
             bad.append("malformed: no well-formed result: %r" % o[:80])
             continue
@@ -384,6 +388,8 @@ def monitor_c15(ops, outs):
         if kind == "cfg" or not cfg.valid():
             continue
         out = Out(o)
+        if o.startswith("env-error"):
+            continue  # the harness could not get a local port: not an observation of Buffer (the diff still reports it)
         if not out.ok:
             bad.append("malformed: no well-formed result: %r" % o[:80])
             continue
